@@ -298,7 +298,13 @@ macro_rules! impl_select_zero_small {
                     // with value given by the number of bits. Thus, we must
                     // handle the case in which inv_idx is the the last
                     // inventory entry as a special case.
-                    last_block_idx = self.len().div_ceil(Self::BLOCK_BIT_SIZE);
+                    // The rank is in the upper block with index
+                    // upper_block_idx: the absolute counters restart in
+                    // the following one
+                    last_block_idx = self.len().div_ceil(Self::BLOCK_BIT_SIZE).min(
+                        (upper_block_idx + 1)
+                            * (Self::SUPERBLOCK_BIT_SIZE / Self::BLOCK_BIT_SIZE),
+                    );
                 }
 
                 debug_assert!(block_idx < counts.len());
